@@ -248,6 +248,9 @@ fn main() {
         std::process::exit(2);
     }
     ctx.journal.done();
+    if !props::common::big_stacks_available() {
+        ctx.report.inconclusive.push("threads with a large stack cannot be started here: the extreme-size families (terms nested 129..600 deep) were skipped".into());
+    }
     let out_json = format!("{}/shard-{}.json", out_dir, shard);
     let out_fps = format!("{}/shard-{}.fps", out_dir, shard);
     ctx.report.note("wall_s", ctx.started.elapsed().as_secs_f64());
